@@ -110,7 +110,10 @@ def check(spec, tier, seed, replay=None):
                 runs.insert(0, ("corpus:" + f, "release", ["x", "--replay", os.path.join(corpus_dir, f)], None))
     rnd = random.Random(int(seed))
     for label, profile, args, env in runs:
-        cases, impl = C.run_harness([spec.bin_path(profile)] + args, env=env)
+        if callable(args):
+            cases, impl = args()        # a source of (case, implementation result) pairs other than a harness binary
+        else:
+            cases, impl = C.run_harness([spec.bin_path(profile)] + args, env=env)
         total += len(cases)
         stats["run:" + label] = len(cases)
         if drv is None:
